@@ -182,6 +182,29 @@ def work(item, tier, seed):
         except Exception as e:
             out.violation(sig0 + 'gbasis-exception', f"gbasis raised {e!r} for local index {i} on {geolab}", case=case0)
             return out
+        # "at every point": the field delivered at a point does not depend on which other points accompany it.
+        # The same element object is asked again block by block (equal-shaped point arrays that differ in one
+        # coordinate only - the situation of every finite-difference or facet evaluation) and must reproduce
+        # the corresponding slice of the one-call evaluation.
+        try:
+            for s in (range(len(shifts)) if tier == 'thorough' else (0, 1, len(shifts) - 1)):
+                with warnings.catch_warnings():
+                    warnings.simplefilter('ignore')
+                    gbs = elem.gbasis(mapping, np.ascontiguousarray(Xall[:, s * nq:(s + 1) * nq]), i)
+                for comp, (df1, df2) in enumerate(zip(gb, gbs)):
+                    f1, f2 = fields_of(df1), fields_of(df2)
+                    for k in f1:
+                        a = np.broadcast_to(f1[k], f1[k].shape[:-2] + (nt, Xall.shape[1]))[..., s * nq:(s + 1) * nq]
+                        b = np.broadcast_to(f2[k], a.shape)
+                        out.ev()
+                        if not np.allclose(a, b, rtol=1e-11, atol=1e-11 * (1 + np.abs(a).max())):
+                            out.violation(sig0 + 'pointset-dependent',
+                                          f"field {k} of local function {i} at the stencil block {shifts[s]} differs by "
+                                          f"{np.abs(a - b).max():.3e} between one call with all points and a call with this "
+                                          f"block alone (same element object) on {geolab}", case=dict(case0, local=i, field=k))
+                            raise StopIteration
+        except StopIteration:
+            pass
         for comp, df in enumerate(gb):
             F = fields_of(df)
             val = F['value']                     # (..., nt, nq_all)
